@@ -5,7 +5,7 @@ CONSTANTS
   ShortCookieRead = TRUE
   DialResetsData = TRUE
   Alpns <- AlpnsTls
-  Alphabet <- AlphaAll
+  Alphabet <- AlphaWalk
   CutRecs <- CutAll
   MaxRecs = 6
   MaxDials = 3
